@@ -89,6 +89,7 @@ type Options struct {
 	MaxFiles   int
 	MaxDefs    int // per file
 	Rich       bool // more annotations / constants / services
+	Twins      bool // two files with the same base name in different directories, each included as "<base>.thrift" by a sibling
 }
 
 func (g *gen) name(prefix string) string {
@@ -569,6 +570,10 @@ func Generate(r Rand, o Options) *Program {
 	nf := 1 + r.Intn(o.MaxFiles)
 	dirs := []string{"", "", "sub/", "sub/deep/", "other/"}
 	usedBase := map[string]int{}
+	twins := o.Twins
+	if twins {
+		nf = 5
+	}
 	for i := 0; i < nf; i++ {
 		base := fmt.Sprintf("f%d", i)
 		if i == 0 {
@@ -578,16 +583,27 @@ func Generate(r Rand, o Options) *Program {
 		if i == 0 {
 			d = ""
 		}
+		if twins {
+			// main -> d1/u, d2/v ; d1/u -> d1/base ; d2/v -> d2/base   (both written include "base.thrift")
+			base = []string{"main", "u", "v", "base", "base"}[i]
+			d = []string{"", "d1/", "d2/", "d1/", "d2/"}[i]
+		}
 		g.p.Files = append(g.p.Files, &File{Path: d + base + ".thrift", Base: base})
 		usedBase[base]++
 	}
 	g.syms = make([][]*sym, nf)
 	// include edges: i -> j for j > i; make sure every file is reachable from main
-	for j := 1; j < nf; j++ {
+	for j := 1; j < nf && !twins; j++ {
 		parent := r.Intn(j)
 		g.p.Files[parent].Includes = append(g.p.Files[parent].Includes, j)
 	}
-	for i := 0; i < nf; i++ {
+	if twins {
+		g.p.Files[0].Includes = []int{1, 2}
+		g.p.Files[1].Includes = []int{3}
+		g.p.Files[2].Includes = []int{4}
+		g.stat("twin-layouts")
+	}
+	for i := 0; i < nf && !twins; i++ {
 		for j := i + 1; j < nf; j++ {
 			has := false
 			for _, x := range g.p.Files[i].Includes {
@@ -611,7 +627,7 @@ func Generate(r Rand, o Options) *Program {
 		}
 		for _, inc := range f.Includes {
 			// the include path is relative to the including file's directory
-			rel := relPath(path.Dir(f.Path), g.p.Files[inc].Path)
+			rel := RelPath(path.Dir(f.Path), g.p.Files[inc].Path)
 			g.emit(fi, Line{Text: fmt.Sprintf("include \"%s\"", rel), Kind: "include", IncRef: inc + 1})
 		}
 		nd := 1 + r.Intn(o.MaxDefs)
@@ -647,7 +663,7 @@ func Generate(r Rand, o Options) *Program {
 	return g.p
 }
 
-func relPath(fromDir, to string) string {
+func RelPath(fromDir, to string) string {
 	if fromDir == "." || fromDir == "" {
 		return to
 	}
